@@ -100,7 +100,7 @@ def gen_coarse_graph(R, tier):
         orders = R.choice([(1,), (1, 1, 2, 3, 0), (0, 3, 1), (1, 2, 3, 0), (0, 3)])
         for i in range(1, n):
             g.add_edge(R.randrange(i), i, order=R.choice(orders))
-        for _ in range(R.choice([0, 1, 3, 6, 10, 14])):
+        for _ in range(R.choice([0, 1, 3, 6, 10, 14, 25, 40])):     # (dense: >= 10 simultaneously open ring bonds, %nn markers)
             if n < 3:
                 break
             a, b = R.sample(range(n), 2)
